@@ -145,7 +145,45 @@ func ctxLang(ctx context.Context) string {
 
 type recRs struct {
 	*resource.DbResource
-	calls *[]eCall
+	calls  *[]eCall
+	static map[string]bool
+}
+
+// FuncFor: symbols served from the store's STATICLOAD entries (DbFuncFor's fallback) have no scripted
+// function that could record the call, so the call is recorded here
+func (r *recRs) FuncFor(ctx context.Context, sym string) (resource.EntryFunc, error) {
+	fn, err := r.DbResource.FuncFor(ctx, sym)
+	if err != nil || !r.static[sym] {
+		return fn, err
+	}
+	return func(ctx context.Context, nodeSym string, input []byte) (resource.Result, error) {
+		*r.calls = append(*r.calls, eCall{Kind: "func", Sym: sym, Lang: ctxLang(ctx), Input: append([]byte{}, input...), NoIn: input == nil})
+		return fn(ctx, nodeSym, input)
+	}, nil
+}
+
+// staticEntry decides whether a scripted function is served as a STATICLOAD entry of the store
+// instead (only a function that always returns the same plain content can be): by a hash of the
+// symbol, so that both paths occur; key = the store key used ("sym" or the fallback "sym.txt")
+func staticEntry(sym string, script []eFres) (bool, string) {
+	if len(script) != 1 {
+		return false, ""
+	}
+	f := script[0]
+	if f.Fail || f.Echo || f.Status != 0 || len(f.Set) > 0 || len(f.Reset) > 0 {
+		return false, ""
+	}
+	h := 0
+	for _, c := range []byte(sym) {
+		h += int(c)
+	}
+	if h%2 != 0 {
+		return false, ""
+	}
+	if h%4 == 0 {
+		return true, sym + ".txt"
+	}
+	return true, sym
 }
 
 func (r *recRs) GetCode(ctx context.Context, sym string) ([]byte, error) {
@@ -209,14 +247,27 @@ func buildResource(a *eApp, w *eWorld) (*recRs, error) {
 	if err := put(db.DATATYPE_MENU, a.Menu); err != nil {
 		return nil, err
 	}
+	static := map[string]bool{}
+	m.SetPrefix(db.DATATYPE_STATICLOAD)
+	for _, s := range a.Funcs {
+		if ok, key := staticEntry(s, a.Fn[s]); ok {
+			if err := m.Put(ctx, []byte(key), []byte(a.Fn[s][0].Content)); err != nil {
+				return nil, err
+			}
+			static[s] = true
+		}
+	}
 	m.SetLock(0, true)
 	rs := resource.NewDbResource(m)
+	if len(static) > 0 {
+		rs = rs.With(db.DATATYPE_STATICLOAD)
+	}
 	for _, s := range a.Funcs {
-		if len(a.Fn[s]) > 0 {
+		if len(a.Fn[s]) > 0 && !static[s] {
 			rs.AddLocalFunc(s, scripted(w, s, a.Fn[s]))
 		}
 	}
-	return &recRs{DbResource: rs, calls: &w.calls}, nil
+	return &recRs{DbResource: rs, calls: &w.calls, static: static}, nil
 }
 
 // ---- observation -----------------------------------------------------------------------
